@@ -13,6 +13,9 @@ CLAIMED = {
  "C06": ("DESIGN 6/C06", "Lean 4: feat_prefix (evaluating on any prefix yields the prefix of the result) and feat_prewindow (output i depends only on positions i+1-w..=i), corollaries of the _exact theorems through the generic windowed_prefix / window_congr lemmas, for all series/cuts/windows/min_periods; relational correspondence on the real code: prefix results compared bit-for-bit for every cut, history replacement compared within rounding (exactly for exact families) and against the model.",
          "Lean kernel; axioms propext/Quot.sound/Classical.choice; the size of the floating-point residue of pre-window history is a rounding fact observed by the run, not proved (DESIGN 5.1).",
          "Lean 4 proof (locality corollaries of refinement theorems) + relational model/implementation correspondence check"),
+ "C07": ("DESIGN 6/C07", "Lean 4: each backend adapter is coherent (coherent_vec, coherent_vecdeque for any ring-buffer rotation incl. wrapped, coherent_ndarray for any offset/stride incl. reversed with the repaired try_as_slice, coherent_arc, coherent_opt): len, checked get, iteration, sub-slicing and the contiguous view when offered all describe one logical sequence; algo_view_indep (algorithms that observe a container through these accessors agree on coherent views) and feat_path_indep (fast *_to path = default iterator path = caller-buffer path). Correspondence on the real code: accessor table of 15 backends against the logical list (exhaustive small + random), and every catalogued function on every sized backend x output container x returned/out path against the single model result (full values).",
+         "Lean kernel; axioms propext/Quot.sound/Classical.choice; std VecDeque ring buffer and ndarray stride storage are modelled (Ring, Strided), not verified; the Polars backend is not built by the harness (build cost 2 GB / 65 s): not covered, see DESIGN.",
+         "Lean 4 proof (coherence of container adapters, path independence) + backend-matrix correspondence check"),
  "C10": ("DESIGN 6/C10", "Lean 4 theorems on the index arithmetic of the drivers and window kernels for every length/window: reads_in_bounds, writes_once (each slot exactly once, nothing else), kernel_range_in_bounds (every index in start..=end of every callback < len, start <= end: covers cmp/norm rescans and reg residual loops), slices_ok, degenerate_clean (window 0 / empty / mismatched second series: panic or fully written output), second_series_reads. Tie to the code: the property oracle is applied directly to the logs of instrumented containers (LogVec validates every uget/uslice, LogOut counts writes per slot at assume_init) over an exhaustive band of lengths, windows 0..=len+3, null subsets, second-series lengths; real Vec inputs run under the debug-profile unsafe-precondition checks (an abort is a verdict).",
          "Lean kernel; axioms propext/Quot.sound/Classical.choice; real memory behaviour is observed (logging containers, UB-check aborts), not modelled; kernel read sets of cmp/norm/reg closures are bounded by the start..=end theorem, their exact access pattern is observed only.",
          "Lean 4 proof (index-arithmetic invariants) + instrumented-container correspondence check"),
